@@ -38,5 +38,12 @@ func (v *VerifC06Server) BlockingQuery(minIndex uint64, maxTime time.Duration, m
 	return v.s.blockingQuery(opts, meta, fn)
 }
 
+// Shutdown closes the server's shutdown channel: the context of every running blockingQuery is cancelled
+// (the same branch of the loop as the MaxQueryTime timeout: WatchCtx returns an error, the request answers
+// with what it has).
+func (v *VerifC06Server) Shutdown() { close(v.s.shutdownCh) }
+
+func VerifC06ErrNotChanged() error { return errNotChanged }
+
 // Sentinels of the blocking-query contract.
 func VerifC06ErrNotFound() error { return errNotFound }
